@@ -77,7 +77,7 @@ Print Assumptions C10_written.
 
 (* non-vacuity: the table is the real thing *)
 Example C10_witness :
-  length ecore_features = 67%nat /\
+  length ecore_features = 66%nat /\
   length (filter (fun f => match eff_opp ecore_features f with Some _ => true | None => false end) ecore_features) = 16%nat /\
   not_written ecore_classes ecore_features signature_features = [].
 Proof. vm_compute. repeat split; reflexivity. Qed.
